@@ -4,5 +4,6 @@
 Require Extraction.
 Require Import ExtrOcamlBasic.
 From RX Require Import Base.Prelude Base.InvList Model.Case Model.Op Model.Engine Model.Matcher
-     Model.Compiler Model.Api Model.Run.
-Extraction "model.ml" regex_new is_match replace_all run_tokenize run_analyze mem.
+     Model.Compiler Model.Api Model.Run Spec.Repl.
+Extraction "model.ml" regex_new is_match replace_all run_tokenize run_analyze mem
+  parse_repl render.
